@@ -498,3 +498,28 @@ def positional_order_kept(ctx, qualnames, role_prefix="signature"):
                       found=(", ".join(own[:6]) + (", ..." if len(own) > 6 else "")) + (f"  (moved: {', '.join(moved)})" if moved else ""))
     finally:
         ctx.evidence = saved
+
+
+def param_length_at_callers(ana: Analysis, f: FuncInfo, pname: str):
+    """len(<argument passed for parameter pname>) at every direct call site of f, as terms of the callers (None when some call
+    site cannot be bound).  `len(tasks)` inside the gather is the length of the list the dispatch loop filled."""
+    out = []
+    for g in ana.prog.functions.values():
+        for cs in ana.res.calls(g):
+            if cs.callee.func is not f or cs.indirect or not isinstance(cs.node, ast.Call):
+                continue
+            try:
+                ba = bind_args(f, cs.node, skip_self=(cs.callee.kind == "method_internal"))
+            except AnalysisError:
+                return None
+            a = ba.get(pname)
+            if a is None:
+                return None
+            b = ana.builder(g, no_inline=ana.known)
+            call = ast.copy_location(ast.Call(func=ast.Name("len", ast.Load()), args=[a], keywords=[]), a)
+            ast.fix_missing_locations(call)
+            try:
+                out.append(b.term(call, b.at(cs.node)))
+            except Exception:
+                return None
+    return out or None
